@@ -12,6 +12,8 @@ RUN = 'BacktestTradingSession.run'
 
 
 def check(ctx):
+    from ..lib import discarded_results
+    ctx.sub(discarded_results, 'C14.S1', ('qstrader/trading/', 'qstrader/system/'), 'the event loop applies each step to the event it was prepared for')
     ctx.sub(s1_loop_table)
     ctx.sub(c02.mark_loop, 'C14.S1')
     ctx.sub(s2_who_may_trade)
